@@ -94,6 +94,43 @@ CHECKS = [
         technique="solver-chosen fault injection on the real API (symx) + CrossHair on the constructors' sort_by check",
         crosshair=True,
     ),
+
+    dict(
+        property_id="C06",
+        text="Bounded symbolic model checking of the JSON round trip: (O6.2) the real values_orders dump/rebuild functions on GroupedLists with symbolic numeric leaders (every grouping, NaN merged/alone, inf leader) restore order and content exactly, with json.dumps/loads as a structural contract stub; (O6.1) CrossHair on the real leaf conversion functions for every string <= 10 chars; (O6.3) for the concrete witness of every explored path of complete fits (BinaryCarver, ContinuousCarver, Discretizer) the real json.dumps/loads + load_carver/load_discretizer give the same transform, summary and re-serialisation; (O6.4) a solver-chosen type/magnitude grid (float64/float32/int64, 1e-8..1e12, negative, str/int/float/mixed categories, NaN).",
+        design_ref="DESIGN.md 6/C06",
+        note="O6.3/O6.4 are witness-based (one concrete model per explored path / grid point), reported under traces_validated_against_impl. Trusted: float(repr(x)) == x and json's str(key) for dict keys. One open known finding KF-C06-1 (category named 'numpy.inf').",
+        technique=TECH + "; CrossHair for string leaves",
+        crosshair=True,
+    ),
+    dict(
+        property_id="C10",
+        text="Bounded symbolic model checking of feature independence and schedule independence: complete real fits (BinaryCarver, Discretizer[, ContinuousCarver]) of a symbolic quantitative feature alone, together with quantitative/qualitative/numeric-valued companions, with reordered feature lists and DataFrame columns, under every solver-chosen iteration order of set(features) (all hash seeds) and with n_jobs in {2,3} through an in-process pool that pickles arguments/results and returns them in every solver-chosen completion order: values_orders['f'] and transform output are identical on every path; parallel == sequential for all features.",
+        design_ref="DESIGN.md 6/C10",
+        note="Real OS processes are outside the claim: only the order effects of hashing and scheduling are modelled, under the assumption (true for multiprocessing.Pool) that workers share no memory with the parent. n=3 (quick)/3-4 symbolic rows.",
+        technique=TECH + "; schedules and hash orders as solver-chosen permutations",
+    ),
+    dict(
+        property_id="C11",
+        text="Bounded symbolic, relational model checking of invariances: find_quantiles and complete carver fits are run on x and on a second symbolic column x' constrained to be order-isomorphic (covers every strictly increasing map, hence exact a*x+b, a>0): same bucket per row, same kept features, same induced row partition; solver-chosen row permutations with index relabelling (offset, shuffled ints, strings) give the same result; order-preserving renamings of qualitative categories and ordinal rankings (positives per category solver-chosen) give the same result.",
+        design_ref="DESIGN.md 6/C11",
+        note="n<=4 (quick)/5 rows at kernel level, 3/3-4 at API level; 3-4 categories. Rounding of a*x+b itself is outside the claim.",
+        technique=TECH + "; relational (two-run) path conditions",
+    ),
+    dict(
+        property_id="C17",
+        text="Bounded symbolic model checking of update_discretizer: fitted objects built from GroupedLists (quantitative: symbolic boundaries, every initial grouping, NaN absent/alone; qualitative: 4 concrete configurations incl. numeric members and NaN), sequences of up to 2 (quick)/3 solver-chosen edits (group adjacent groups in both directions, any groups for categorical features, NaN into a group, replace by a new name); after every edit the real transform of symbolic / exhaustive probe rows agrees with a reference model of the partition, float labels are group ranks, values_orders, labels_per_values and summary agree; JSON round trip after edits on concrete witnesses.",
+        design_ref="DESIGN.md 6/C17",
+        note="m<=3/4 boundaries; 'replace' of a quantitative upper bound is not exercised (it would change the interval, not only rename it).",
+        technique=TECH,
+    ),
+    dict(
+        property_id="C18",
+        text="Bounded symbolic model checking of ChainedDiscretizer: real __init__/_prepare_data/fit/transform on 4 hierarchies (1-3 levels, uneven fan-out) with solver-chosen per-leaf counts (0 = never observed), NaN and unknown rows, both unknown_handling policies and min_freq any real in (0,0.5]: every known value remains present exactly once; groups equal the bottom-up accumulation along the hierarchy (own modality iff share >= min_freq, otherwise merged into the ancestor, recursively); unknown values raise or join NaN; transform outputs each value's leader.",
+        design_ref="DESIGN.md 6/C18",
+        note="N<=6 (quick)/10 rows; hierarchies deeper than 3 levels or wider than 5 leaves and intermediate values appearing as raw data are outside the claim.",
+        technique=TECH,
+    ),
 ]
 
 ALL = ["C%02d" % i for i in range(1, 20)]
